@@ -100,3 +100,16 @@ package runtime
 //@ loop 1
 //@ invariant[C03] forall k mathint :: 0 <= k && k < ncalls(RunStmt) ==> callobs(RunStmt, k, scope) != nil && callobs(RunStmt, k, scope).Before == old(ctx.stackCur)
 //@ invariant[C03] forall k mathint :: 0 <= k && k < ncalls(RunStmts) ==> callobs(RunStmts, k, emptyscope) && callobs(RunStmts, k, scope) != nil && callobs(RunStmts, k, scope).Before != nil && callobs(RunStmts, k, scope).Before.Before == old(ctx.stackCur)
+
+// assignment: `x = e` binds x (in the scope the scope rule selects: SetVarb) to the value and type
+// of e; `x op= e` binds x to the kernel's result on (current x - variable or, failing that, point
+// key -, e); an indexed target goes through the in-place element write
+//@ func RunAssignmentExpr
+//@ ensures[C03] ncalls(RunStmt) <= 1 && (ncalls(RunStmt) == 1 ==> len(expr.LHS) == 1 && len(expr.RHS) == 1 && callarg(RunStmt, 0, 1) == expr.RHS[0])
+//@ ensures[C03] ncalls(RunStmt) == 1 && callres(RunStmt, 0, 2) == nil && expr.LHS[0].NodeType == ast.TypeIdentifier && expr.Op == ast.EQ ==> result2 == nil && ncalls((*Task).SetVarb) == 1 && callarg((*Task).SetVarb, 0, 1) == expr.LHS[0].elem.(*ast.Identifier).Name && callarg((*Task).SetVarb, 0, 2) == callres(RunStmt, 0, 0) && callarg((*Task).SetVarb, 0, 3) == callres(RunStmt, 0, 1) && result0 == callres(RunStmt, 0, 0) && result1 == callres(RunStmt, 0, 1)
+//@ ensures[C03] ncalls(runAssignArith) == 1 && expr.LHS[0].NodeType == ast.TypeIdentifier ==> ncalls((*Task).GetKey) == 1 && callarg((*Task).GetKey, 0, 1) == expr.LHS[0].elem.(*ast.Identifier).Name && callarg(runAssignArith, 0, 1) == callres((*Task).GetKey, 0, 0) && callarg(runAssignArith, 0, 3) == expr.Op && callarg(runAssignArith, 0, 2) != nil && fresh(callarg(runAssignArith, 0, 2))
+//@ ensures[C03] ncalls(runAssignArith) == 1 && expr.LHS[0].NodeType == ast.TypeIdentifier && callres(runAssignArith, 0, 2) == nil ==> result2 == nil && ncalls((*Task).SetVarb) == 1 && callarg((*Task).SetVarb, 0, 1) == expr.LHS[0].elem.(*ast.Identifier).Name && callarg((*Task).SetVarb, 0, 2) == callres(runAssignArith, 0, 0) && callarg((*Task).SetVarb, 0, 3) == callres(runAssignArith, 0, 1)
+//@ ensures[C03] ncalls(runAssignArith) == 1 && callres(runAssignArith, 0, 2) != nil ==> result2 != nil && ncalls((*Task).SetVarb) == 0 && ncalls(changeListOrMapValue) == 0
+//@ ensures[C03] ncalls(RunStmt) == 1 && callres(RunStmt, 0, 2) != nil ==> result2 != nil && ncalls((*Task).SetVarb) == 0 && ncalls(changeListOrMapValue) == 0
+//@ ensures[C03] ncalls(changeListOrMapValue) <= 1 && (ncalls(changeListOrMapValue) == 1 ==> expr.LHS[0].NodeType == ast.TypeIndexExpr && callarg(changeListOrMapValue, 0, 2) == expr.LHS[0].elem.(*ast.IndexExpr).Index && ncalls((*Task).GetKey) == 1 && callarg((*Task).GetKey, 0, 1) == expr.LHS[0].elem.(*ast.IndexExpr).Obj.Name)
+//@ ensures[C03] ncalls(changeListOrMapValue) == 1 && expr.Op == ast.EQ ==> callarg(changeListOrMapValue, 0, 3) == callres(RunStmt, 0, 0) && callarg(changeListOrMapValue, 0, 4) == callres(RunStmt, 0, 1)
